@@ -833,6 +833,11 @@ func (e *SpecEnv) call(x *SX) Term {
 			e.bad("bval needs an interface value")
 		}
 		return Term{"(i-bv " + a.S + ")", bvSort(64, false)}
+	case "f2u32":
+		// the library's float -> uint32 conversion (uninterpreted, see exec.go convert)
+		a := e.eval(args[0])
+		u.useSpec("f2bv32")
+		return Term{"(f2bv32 " + a.S + ")", bvSort(32, false)}
 	case "isint":
 		a := e.eval(args[0])
 		return Term{"(is_int " + a.S + ")", sBool}
@@ -871,7 +876,7 @@ func (e *SpecEnv) call(x *SX) Term {
 	}
 	// spec function?
 	if sf, ok := u.eng.specFuncs[name]; ok {
-		u.eng.useSpecFunc(name)
+		u.useSpec(name)
 		if len(args) != len(sf.ParamSorts) {
 			e.bad("spec function %s expects %d arguments", name, len(sf.ParamSorts))
 		}
@@ -978,7 +983,7 @@ func (e *SpecEnv) seqOf(x *SX) Term {
 		}
 		hn, hs, _ := u.elemHeapName(types.Typ[types.Uint8])
 		h := u.heap(e.st, hn, hs)
-		u.eng.useSpecFunc("shift8")
+		u.useSpec("shift8")
 		return Term{"(mk-str (shift8 (select " + h.S + " (s-ref " + b.S + ")) " + add(sliceOff(b), loT).S + ") " + sub(hiT, loT).S + ")", sStr}
 	}
 	e.bad("seq() of a non-sequence")
